@@ -66,6 +66,16 @@ def gen(seed):
                              'at': rng.randint(0, 200)})
         if not spec['opt'].get('j'):
             spec['opt']['j'] = rng.randint(2, 3)
+    if seed % 9 == 4 and world['layers']:
+        # a slow child: its report arrives long (in virtual time) after it closed its stdout, or
+        # it stalls in the middle - the verdict must wait for it
+        srng = random.Random(seed ^ 0x57a11)
+        L = srng.choice(world['layers'])['name']
+        spec['plan'].append({'site': 'channel', 'ident': m.full(L), 'a': 'stall',
+                             'pos': srng.randint(0, 60), 'dt': srng.choice([2.0, 45.0, 600.0]),
+                             'after_close': srng.random() < 0.7})
+        if not spec['opt'].get('j'):
+            spec['opt']['j'] = srng.randint(2, 3)
     if rng.random() < 0.15 and not spec['opt'].get('j'):
         cands = [L['name'] for L in world['layers'] if m.has_hook(L['name'], 'tearDown')]
         if cands:
